@@ -10,6 +10,7 @@ package main
 import (
 	"bytes"
 	"encoding/json"
+	"hash/fnv"
 	"io"
 	"math"
 	"math/rand"
@@ -150,6 +151,12 @@ func (s *source) Read(p []byte) (int, error) {
 	return n, nil
 }
 
+func keyOf(raw []byte) int64 {
+	h := fnv.New32a()
+	h.Write(raw)
+	return int64(h.Sum32())
+}
+
 type readObs struct {
 	Err     bool   `json:"err"`
 	Text    string `json:"text,omitempty"`
@@ -185,15 +192,17 @@ func main() {
 			Tail   int
 			Trunc  string
 		}](raw)
+		caseKey := keyOf(raw) // seeded choices depend on the case itself, not on its position: a replayed case repeats them
+		rot := int(caseKey % 5)
 		out := make([]repObs, 0, reps)
 		for k := 0; k < reps; k++ {
-			r := rand.New(rand.NewSource(seed*1000003 + int64(i)*131 + int64(k)))
+			r := rand.New(rand.NewSource(seed*1000003 + caseKey*131 + int64(k)))
 			o := repObs{Reads: []readObs{}}
 			// ---- write side
 			w := &sink{}
 			msgs := make([]msg, len(c.Frames))
 			for j, f := range c.Frames {
-				t := (k + j*2 + i) % 5 // every type in every position over 5 consecutive reps
+				t := (k + j*2 + rot) % 5 // every type in every position over 5 consecutive reps
 				m := gen(r, t, f.Sz)
 				msgs[j] = m
 				o.Types = append(o.Types, typeNames[t])
@@ -257,7 +266,7 @@ func main() {
 				src.chunk = func() int { return 1 + r.Intn(4096) }
 			}
 			for j, f := range c.Frames {
-				s := &spy{inner: fresh((k + j*2 + i) % 5)}
+				s := &spy{inner: fresh((k + j*2 + rot) % 5)}
 				size := int64(o.Sizes[j])
 				var bound int64 = -1
 				switch f.Bd {
